@@ -181,8 +181,8 @@ def check_row(ck, row, case):
         want = getattr(cls(**eff), meth)(x)
     if not sentinel.same_values(got["value"], want):
         which = [params[p] for p in (case["expl"] or case["fixed"])]
-        bad.append((_sig(name, meth, pred, params=which),
-                    f"call gives {np.asarray(got['value']).tolist()} but {name}(**{eff}).{meth}(x) gives "
+        bad.append((_sig(name, meth, pred),
+                    f"{which}: call gives {np.asarray(got['value']).tolist()} but {name}(**{eff}).{meth}(x) gives "
                     f"{np.asarray(want).tolist()} for x={case['x']}"))
     # translator self-check: symbolic slots evaluated = arguments of the concrete scipy call
     if row is not None and row["result"] is not None:
@@ -280,7 +280,9 @@ def close(a, b, rtol, atol):
     a = np.asarray(a, dtype=float)
     b = np.asarray(b, dtype=float)
     with np.errstate(all="ignore"):
-        ok = (a == b) | (np.isnan(a) & np.isnan(b)) | (np.abs(a - b) <= atol + rtol * np.maximum(np.abs(a), np.abs(b)))
+        fin = np.isfinite(a) & np.isfinite(b)
+        ok = (a == b) | (np.isnan(a) & np.isnan(b)) | (
+            fin & (np.abs(a - b) <= atol + rtol * np.maximum(np.abs(a), np.abs(b))))
     return ok
 
 
@@ -326,10 +328,10 @@ def explore_case(ck, name, theta, theta0, jobs, pending):
         for label, inst, a, kw in variants:
             g, exc = call(inst, meth, arr, *a, **kw)
             if exc:
-                bad.append((_sig(name, meth, "explicit_equals_constructed:raises", how=label), exc))
+                bad.append((_sig(name, meth, "explicit_equals_constructed:raises"), f"{label}: {exc}"))
             elif not sentinel.same_values(g, v):
-                bad.append((_sig(name, meth, "explicit_equals_constructed", how=label),
-                            f"{name}(**{theta0 if 'default' not in label else {}}).{meth}(x, {a or kw}) = "
+                bad.append((_sig(name, meth, "explicit_equals_constructed"),
+                            f"[{label}] {name}(**{theta0 if 'default' not in label else {}}).{meth}(x, {a or kw}) = "
                             f"{np.asarray(g).tolist()} but {name}(**{theta}).{meth}(x) = {v.tolist()}; x={arr.tolist()}"))
         for p in params:
             mixed = dict(theta0)
@@ -341,9 +343,9 @@ def explore_case(ck, name, theta, theta0, jobs, pending):
                 continue
             w, exc2 = call(cls(**mixed), meth, arr)
             if exc or exc2:
-                bad.append((_sig(name, meth, "explicit_equals_constructed:raises", params=[p]), str(exc or exc2)))
+                bad.append((_sig(name, meth, "explicit_equals_constructed:raises"), f"{p}: {exc or exc2}"))
             elif not sentinel.same_values(g, w):
-                bad.append((_sig(name, meth, "explicit_equals_constructed", params=[p]),
+                bad.append((_sig(name, meth, "explicit_equals_constructed"),
                             f"{name}(**{theta0}).{meth}(x, {p}={theta[p]}) = {np.asarray(g).tolist()} but "
                             f"{name}(**{mixed}).{meth}(x) = {np.asarray(w).tolist()}; x={arr.tolist()}"))
         # --- array_like: list, list of ints, scalar float, python int
